@@ -618,6 +618,7 @@ func stress(run *ev.Run, dir string) {
 			Unknown    int
 			Outcomes   map[string]int
 			Goroutines int
+			PairsMet   int64
 		}
 		b, _ := os.ReadFile(out)
 		if json.Unmarshal(b, &res) != nil {
@@ -626,6 +627,7 @@ func stress(run *ev.Run, dir string) {
 		}
 		run.Add("stress_histories", int64(res.Histories))
 		run.Add("stress_operations", int64(res.Operations))
+		run.Add("stress_writer_pairs_entering_set_together", res.PairsMet)
 		run.Add("evaluations", int64(res.Histories))
 		for k, v := range res.Outcomes {
 			run.Add("stress_outcome:"+k, int64(v))
